@@ -104,3 +104,7 @@ package pclog
 // C20: lock discipline of the log buffer
 //@ field pclog.ProcessLogBuffer.buffer guarded_by=mx
 //@ field pclog.ProcessLogBuffer.observers guarded_by=mx
+
+//@ func NewLogger
+//@   ensures result != nil && fresh(result)
+//@   assigns nothing
